@@ -388,6 +388,8 @@ def reentry_case(r):
         if k == 'let':
             return ['let', [[stop, ['e', ['lit', 1]]], ['d', ['e', ['lit', shadow]]]], inner], None
         oid = r.randint(30, 60)
+        while 'w%d' % oid in extra:      # two wrappers of one case must not share a name
+            oid += 1
         o = {'o': oid, 'a': [[stop, 1], ['d', shadow]] + ([['e', {'s': 'SHe'}]] if r.random() < 0.5 else [])}
         name = 'w%d' % oid
         if k == 'with':
